@@ -210,6 +210,6 @@ MANIFEST = dict(
     design_ref="DESIGN.md §7 C16",
     note="Trusted: Coq kernel; the model<->code tie is the translator (operators and expression shapes) plus differential runs (960/9600 "
          "cases); SpecFloat = hardware f64 sub/div; integer sums do not overflow and f64 sums of integer-valued weights are exact (contract). "
-         "Grid cut / lambda theorems are for D = 2 and 3 (the only constructible grids); the index bijection and the neighbour iterator (spec, symmetry, no duplicate) are proved for every D (C16_grid_index_bij_generic, C16_grid_neighbors_*_generic: the generic mixed-radix loops and the 2D/3D fast paths agree). No axioms.",
+         "Grid theorems (index bijection, neighbour spec, symmetry, no duplicate, edge cut = lattice cut, lambda cut = definition) are proved for every dimension D (C16_grid_*_generic) as well as in their 2D / 3D forms; only D = 2, 3 can be constructed, so the generic branches of position_of / index_of are tied to the source by translator shapes only, not by runs. No axioms.",
     technique="Coq proof + model/implementation correspondence + definitions evaluated on every implementation output",
 )
